@@ -60,10 +60,11 @@ class World:
             if op == "SetTemplate":
                 m.SetTemplateUnitSystemByUnitsMapping(self.lits[a["l"]])
             elif op == "AddUnitSystem":
+                kw = {"read_only": True} if a.get("ro") else {}
                 if a["l"] == NONE:
-                    s = m.AddUnitSystem(a["id"], "caption " + a["id"])
+                    s = m.AddUnitSystem(a["id"], "caption " + a["id"], **kw)
                 else:
-                    s = m.AddUnitSystem(a["id"], "caption " + a["id"], self.lits[a["l"]])
+                    s = m.AddUnitSystem(a["id"], "caption " + a["id"], self.lits[a["l"]], **kw)
                 self.systems[a["id"]] = s
                 self.removed.pop(a["id"], None)
             elif op == "RemoveUnitSystem":
@@ -88,6 +89,10 @@ class World:
                 import gc
                 del self.objs[a["o"]]
                 gc.collect()
+            elif op == "SetReadOnly":
+                m.GetUnitSystemById(a["id"]).SetReadOnly(bool(a["ro"]))
+            elif op == "IsReadOnly":
+                out["t"] = "true" if m.GetUnitSystemById(a["id"]).IsReadOnly() else "false"
             elif op == "GetNewId":
                 out["t"] = m.GetNewId()
             elif op == "GetCategoryDefaultUnit":
@@ -123,6 +128,8 @@ class World:
         return {"order": list(systems.keys()),
                 "maps": {sid: dict(s.GetUnitsMapping()) for sid, s in systems.items()},
                 "ids_of_objects": {sid: s.GetId() for sid, s in systems.items()},
+                "ro": {sid: bool(s.IsReadOnly()) for sid, s in systems.items()},
+                "captions": {sid: s.GetCaption() for sid, s in systems.items()},
                 "current": cur if cur is not None else NONE,
                 "tset": t is not None, "tm": dict(t.GetUnitsMapping()) if t is not None else {},
                 "log": [list(e) for e in self.log], "lits": copy.deepcopy(self.lits),
@@ -164,6 +171,11 @@ def diff_state(t, p):
     objs = {x["o"]: [x["c"], x["u"]] for x in t.get("objs", [])}
     if objs != p["objs"]:
         d.append("tracked objects: predicted %r observed %r" % (objs, p["objs"]))
+    ro = {x["id"]: bool(x["ro"]) for x in t.get("ro", [])}
+    if ro != p["ro"]:
+        d.append("read-only flags: predicted %r observed %r" % (ro, p["ro"]))
+    if any(c_ != "caption " + sid for sid, c_ in p["captions"].items()):
+        d.append("captions of the registered systems: %r" % p["captions"])
     if p["lits"] != LITS:
         d.append("the caller's mapping dicts were changed: %r" % p["lits"])
     return d
@@ -250,11 +262,16 @@ def main(tier):
     rep.add_tlc("manager machine, all calls, depth %d: invariants and action properties" % (6 if thorough else 4), r)
     if r.violated:
         raise common.MachineryError("the specification itself violates %s\n%s" % (r.violated, "\n".join(common.tlc_counterexample(r.stdout, 60))))
+    # the same machine with the read-only flag of the systems (AddUnitSystem(read_only=), SetReadOnly, IsReadOnly)
+    r = common.run_tlc("MC_USM", "MC_USM.cfg", bd, env=env(5 if thorough else 3, "allro"), coverage=False, tag="mc-ro", timeout=6000)
+    rep.add_tlc("manager machine with read-only flags, all calls, depth %d: invariants and action properties" % (5 if thorough else 3), r)
+    if r.violated:
+        raise common.MachineryError("the specification itself violates %s\n%s" % (r.violated, "\n".join(common.tlc_counterexample(r.stdout, 60))))
     sd = common.seed()
     if thorough:
-        runs = [(4, "all", 1, 0), (5, "mut", 2, common.sample_seed()), (5, "all", 4, common.sample_seed(1))]
+        runs = [(4, "all", 1, 0), (5, "mut", 2, common.sample_seed()), (5, "all", 4, common.sample_seed(1)), (4, "ro", 1, 0)]
     else:
-        runs = [(3, "all", 1, 0), (4, "all", 16, common.sample_seed()), (5, "mut", 160, common.sample_seed(1))]
+        runs = [(3, "all", 1, 0), (4, "all", 16, common.sample_seed()), (5, "mut", 160, common.sample_seed(1)), (3, "ro", 1, 0)]
     n = 0
     ops = {}
     for depth, opset, every, offset in runs:
@@ -273,7 +290,7 @@ def main(tier):
     # deep random behaviours of the same specification (tlc -simulate): histories in which calls that are
     # no-ops on the abstract state (re-selecting the current system, ...) are followed by further calls
     nsim, dsim = (40000, 14) if thorough else (4000, 12)
-    r = common.run_tlc("MC_USM", "MC_USM.cfg", bd, env=env(dsim, "all", "last"), workers=1, coverage=False, tag="simulate",
+    r = common.run_tlc("MC_USM", "MC_USM.cfg", bd, env=env(dsim, "allro", "last"), workers=1, coverage=False, tag="simulate",
                        simulate="num=%d" % nsim, depth=dsim + 1, seed_=sd + 1, timeout=6000)
     sims = r.tagged("TR")
     if len(sims) < nsim // 2:
